@@ -165,6 +165,9 @@ def run(index: RepoIndex, rep) -> None:
              'opening one cannot open another (plain deep copy, C09.R5)', floor=15)
     from .c09 import deep_copy_rule
     deep_copy_rule(index, rep, 'C10.R8')
+    # a door is one object in one cell: no two cells share it (C03.R8)
+    from .c03 import one_object_per_cell
+    one_object_per_cell(index, rep, 'C10.R9')
     rep.rule('C10.R6', 'no cell store of pickndrop can land on a Door or a Box (only actuation '
              'affects them)', floor=1)
     from ..dynmodel import FRONT, cell, describe_world
